@@ -257,19 +257,19 @@ class quiet(object):
         return False
 
 
-def build_session(c, csv_dir, signals_factory=None, alpha_factory=None, data_sources=None):
+def build_session(c, csv_dir, signals_factory=None, alpha_factory=None, data_sources=None, data_handler=None):
     """The real objects for configuration c (what the constructors print is discarded)."""
     import sys
     saved = sys.stdout
     if c.get("printing"):
         sys.stdout = _Null()
     try:
-        return _build_session(c, csv_dir, signals_factory, alpha_factory, data_sources)
+        return _build_session(c, csv_dir, signals_factory, alpha_factory, data_sources, data_handler)
     finally:
         sys.stdout = saved
 
 
-def _build_session(c, csv_dir, signals_factory=None, alpha_factory=None, data_sources=None):
+def _build_session(c, csv_dir, signals_factory=None, alpha_factory=None, data_sources=None, data_handler=None):
     """The real objects for configuration c.  Returns the BacktestTradingSession."""
     from qstrader import settings
     settings.set_print_events(bool(c.get("printing")))
@@ -293,7 +293,7 @@ def _build_session(c, csv_dir, signals_factory=None, alpha_factory=None, data_so
     if data_sources is None:
         syms = sorted(c["market"])
         data_sources = [CSVDailyBarDataSource(csv_dir, Equity, csv_symbols=syms)]
-    dh = BacktestDataHandler(universe, data_sources=data_sources)
+    dh = data_handler if data_handler is not None else BacktestDataHandler(universe, data_sources=data_sources)
     if c["alpha"] == "topn" and signals_factory is None and alpha_factory is None:
         from qstrader.signals.momentum import MomentumSignal
         from qstrader.signals.signals_collection import SignalsCollection
